@@ -553,6 +553,11 @@ class RemoteWorker(Worker, metaclass=RemoteWorkerMeta):
             self._startup_sync.wait()
 
             # Receiving runtime info is a signal for us that everything is ok
+            ready = mp.connection.wait([self._comms.parent_end, self._child.sentinel])
+            if self._comms.parent_end not in ready:
+                # the child died before it could introduce itself (e.g. because the parent is already gone)
+                logger.info('Child process died before reporting its runtime info')
+                raise ConnectionClosedError()
             runtime_info = self._comms.parent_end.recv()
             self._host, self._pid, self._tid, self._ident = runtime_info
             try:
